@@ -65,8 +65,6 @@ def expected(d, iscsd, fs):
             e["cf_db"] = 20 * np.log10(e["cf"])
             e["cf_rad"] = np.angle(e["Hxy"])
             e["cf_deg"] = e["cf_rad"] * 180 / np.pi
-            e["cf_rad_unwrapped"] = np.unwrap(e["cf_rad"])
-            e["cf_deg_unwrapped"] = e["cf_rad_unwrapped"] * 180 / np.pi
             e["GyyCx"] = coh * e["Gyy"]
             e["GyyRx"] = (1 - coh) * e["Gyy"]
             e["Gyy_dev"] = e["Gyy"] / np.sqrt(navg)
